@@ -87,6 +87,7 @@ func l0Drive(args []string) error {
 	out := fs.String("out", "trace.ndjson", "trace output")
 	sched := fs.String("sched", "", "schedule output (ndjson)")
 	bigEvery := fs.Int("big-every", 0, "every k-th schedule starts with a large population")
+	churnEvery := fs.Int("churn-every", 0, "every k-th schedule starts with > 1024 enqueues of which most are consumed")
 	scratch := fs.String("scratch", "", "scratch dir for sqlite files")
 	profile := fs.String("profile", "all", "operation mix")
 	shards := fs.Int("shards", 1, "number of trace files (out.0, out.1, ...)")
@@ -121,6 +122,13 @@ func l0Drive(args []string) error {
 			o.Ops = 13 + 4 + 25
 			cfg.MaxDepth = 0
 			cfg.PressItems = 0
+		}
+		if *churnEvery > 0 && i%*churnEvery == *churnEvery/2 {
+			o.Churn = true
+			o.BigPop = false
+			cfg.MaxDepth = 0
+			cfg.PressItems = 0
+			cfg.RetMaxAge, cfg.DlqMaxAge, cfg.DelivMaxAge = 0, 0, 0
 		}
 		s := l0.GenSchedule(r, fmt.Sprintf("drv-s%d-%04d", *seed, i), cfg, o)
 		if sw != nil {
